@@ -65,7 +65,9 @@ fn stale(it: &mut Interp, info: &mut StepInfo, kind: u8, which: u16) {
                     v.push(("file_seek_from_current", outcome(&a.seek_cur(h, 0, s)), None));
                     v.push(("file_seek_from_end", outcome(&a.seek_end(h, 0, s)), None));
                 }
-                v.push(("Seek::seek", outcome(&a.io_seek(h, 0, 0)), None));
+                v.push(("Seek::seek(Start)", outcome(&a.io_seek(h, 0, 0)), None));
+                v.push(("Seek::seek(End)", outcome(&a.io_seek(h, 1, 0)), None));
+                v.push(("Seek::seek(Current)", outcome(&a.io_seek(h, 2, 0)), None));
                 v.push(("file_eof", outcome(&a.eof(h, Surf::Raw)), None));
                 v.push(("file_length", outcome(&a.length(h, Surf::Raw)), None));
                 v.push(("file_offset", outcome(&a.offset(h, Surf::Raw)), None));
@@ -242,6 +244,14 @@ fn reenter(it: &mut Interp, info: &mut StepInfo, d: u16, lfn: bool, at: u8) {
                 results.push(("file_seek_from_end", outcome(&a.seek_end(f, 0, Surf::Raw))));
                 results.push(("file_length", outcome(&a.length(f, Surf::Raw))));
                 results.push(("file_offset", outcome(&a.offset(f, Surf::Raw))));
+                // the embedded-io adapters of an object wrapped around the same handle
+                results.push(("Seek::seek(Start)", outcome(&a.io_seek(f, 0, 0))));
+                results.push(("Seek::seek(End)", outcome(&a.io_seek(f, 1, 0))));
+                results.push(("Seek::seek(Current)", outcome(&a.io_seek(f, 2, 0))));
+                let mut buf = [0u8; 8];
+                results.push(("Read::read", outcome(&a.read(f, &mut buf, Surf::Io))));
+                results.push(("Write::write", outcome(&a.write(f, b"x", Surf::Io))));
+                results.push(("Write::flush", outcome(&a.flush(f, Surf::Io))));
                 results.push(("close_file", outcome(&a.close_file(f, Surf::Raw, false))));
             }
             results.push(("close_dir", outcome(&a.close_dir(od.h, Surf::Raw))));
